@@ -38,6 +38,7 @@ type observed struct {
 	NewestPresent  bool
 	HandlerCalls   int
 	HandlerPublish bool
+	CloseCode      uint32
 }
 
 func runCase(c *kit.Case) {
@@ -56,6 +57,13 @@ func runCase(c *kit.Case) {
 	var h *recov.Hist
 	handlerCalls := 0
 	handlerPublished := false
+	populateN := kit.Pick(r, []int{1, 2, 3})
+	// every fourth case: one or two publications land inside each subscribe, right after its cache read
+	// (they reach the subscriber through the subscribe-time buffer, together with the recovered one)
+	racersPerSubscribe := 0
+	if c.Index%4 == 1 {
+		racersPerSubscribe = r.Range(1, 2)
+	}
 	node, _ := w.NewNode(cfg, func(n *centrifuge.Node) {
 		n.OnConnecting(func(_ context.Context, e centrifuge.ConnectEvent) (centrifuge.ConnectReply, error) {
 			rep := kit.Creds("u")
@@ -80,7 +88,15 @@ func runCase(c *kit.Case) {
 				handlerCalls++
 				mu.Unlock()
 				if handlerMode == "populate" {
-					_, err := h.Publish("a", 10, 60*time.Second, 0)
+					// a populating handler may write more than one publication: the subscriber
+					// must still be handed at most the newest one
+					var err error
+					for k := 0; k < populateN && err == nil; k++ {
+						_, err = h.Publish(kit.Pick(r, []string{"a", "a", "b"}), 10, 60*time.Second, 0)
+					}
+					if populateN > 1 {
+						c.Count("cache_populated_with_several_publications", 1)
+					}
 					mu.Lock()
 					handlerPublished = err == nil
 					mu.Unlock()
@@ -91,6 +107,16 @@ func runCase(c *kit.Case) {
 		}
 	})
 	h = &recov.Hist{W: w, Node: node, Channel: channel}
+	if racersPerSubscribe > 0 {
+		kit.SetHook(node, func(point string, cl *centrifuge.Client, ch string) {
+			if point == "sub.afterRecover" && ch == channel { // no lock is held at this point
+				for k := 0; k < racersPerSubscribe; k++ {
+					_, _ = h.Publish(kit.Pick(r, []string{"a", "a", "b", "c"}), 10, 60*time.Second, 0)
+				}
+				c.Count("publications_landing_inside_a_cache_subscribe", racersPerSubscribe)
+			}
+		})
+	}
 
 	nOps := r.Range(0, 25)
 	epochsSeen := []string{}
@@ -228,7 +254,10 @@ func runCase(c *kit.Case) {
 				ob.Offsets = append(ob.Offsets, p.Offset)
 			}
 		}
-		check(c, h, ob, res != nil, cf, sf)
+		if closed, disc, _ := conn.T.Closed(); closed {
+			ob.CloseCode = disc.Code
+		}
+		check(c, h, ob, res != nil, cf, sf, racersPerSubscribe > 0)
 		if len(samples) < 3 {
 			samples = append(samples, ob)
 		}
@@ -242,9 +271,16 @@ func runCase(c *kit.Case) {
 	w.Shutdown()
 }
 
-func check(c *kit.Case, h *recov.Hist, ob observed, haveRes bool, cf, sf recov.TagFilter) {
-	detail := func() any { return map[string]any{"ops": h.Ops, "observed": ob} }
+func check(c *kit.Case, h *recov.Hist, ob observed, haveRes bool, cf, sf recov.TagFilter, raced bool) {
+	detail := func() any { return map[string]any{"ops": h.Ops, "observed": ob, "publications_landed_inside_the_subscribe": raced} }
 	rq := ob.Req
+	if raced && ob.ErrCode == 0 && !haveRes && ob.CloseCode == 3010 {
+		// a publication that lands inside the subscribe can leave a hole next to the (possibly older,
+		// because filtered) recovered one: the library refuses with insufficient state, which is an
+		// explicit refusal, not a delivery
+		c.Count("cache_subscribe_refused_insufficient_state_with_racing_publication", 1)
+		return
+	}
 	if ob.ErrCode != 0 || !haveRes {
 		c.Violation("c03-unexpected-subscribe-error", fmt.Sprintf("cache-mode subscribe failed (error %d, result present %v)", ob.ErrCode, haveRes), detail())
 		return
@@ -274,6 +310,31 @@ func check(c *kit.Case, h *recov.Hist, ob observed, haveRes bool, cf, sf recov.T
 			newestVisible = &rr
 			break
 		}
+	}
+	if raced && len(ob.IDs) == 1 {
+		// the newest visible publication as of any instant of the subscribe is acceptable
+		ok := false
+		for top := ob.TopBefore.Offset; top <= ob.TopAfter.Offset && !ok; top++ {
+			for o := top; o >= 1; o-- {
+				rec, have := byPos[o]
+				if !have {
+					break
+				}
+				if cf.Admit(rec.Tag) && sf.Admit(rec.Tag) {
+					ok = rec.ID == ob.IDs[0]
+					break
+				}
+			}
+		}
+		if !ok && ob.TopBefore.Epoch == ob.TopAfter.Epoch {
+			c.Violation("c03-delivered-not-the-newest-visible", fmt.Sprintf("cache recovery delivered %s (offset %d), which was not the newest visible publication at any instant of the subscribe (top %d -> %d, filters client=%s server=%s)", ob.IDs[0], ob.Offsets[0], ob.TopBefore.Offset, ob.TopAfter.Offset, cf.Name, sf.Name), detail())
+			return
+		}
+		c.Count("delivered_newest_visible_with_racing_publications", 1)
+		return
+	}
+	if raced {
+		return // recovered flag: it describes the instant of the cache read, which the racers moved
 	}
 	if len(ob.IDs) == 1 {
 		if newestVisible == nil || newestVisible.ID != ob.IDs[0] {
@@ -324,14 +385,14 @@ func TestC03(t *testing.T) {
 	kit.Main(t, kit.Spec{
 		ID:     "C03",
 		Bubble: true,
-		Rule: "each case = one bubble: random channel history on a virtual clock (publishes with size/TTL/tags, sleeps across TTLs, RemoveHistory, meta expiry), then 4-10 cache-mode subscribes: client-requested recover (offset 0 / random / top / top+3; epoch current / empty / stale), server-forced AutoCacheRecover, or no recovery; client and server tags filters; JSON/Protobuf; client-side or connect-time server-side; with no / no-op / populating OnCacheEmpty handler. " +
+		Rule: "each case = one bubble: random channel history on a virtual clock (publishes with size/TTL/tags, sleeps across TTLs, RemoveHistory, meta expiry), then 4-10 cache-mode subscribes: client-requested recover (offset 0 / random / top / top+3; epoch current / empty / stale), server-forced AutoCacheRecover, or no recovery; client and server tags filters; JSON/Protobuf; client-side or connect-time server-side; with no / no-op / populating OnCacheEmpty handler (writing 1-3 publications); every fourth case lets 1-2 publications land inside each subscribe right after its cache read. " +
 			"Oracle: <=1 publication; a delivered one is the newest publication of the publish log that both filters admit; recovered == (newest publication still in history, read back with Node.History(limit 1, reverse) right after) OR (client position == current position). Signature = handler mode x per-request (mode, recovered, #pubs, newest present, handler calls).",
 		Assumptions: []string{
 			"whether the newest publication is still held by history is read with Node.History right after the subscribe (sequential scenario, nothing else runs)",
 			"delta encoding is never negotiated in this check",
 		},
 		Cases:           map[string]int{"quick": 1500, "thorough": 30000},
-		RequireCounters: []string{"delivered_newest_visible", "delivered_older_because_newest_filtered", "recovered_true", "recovered_false", "client_holds_position", "cache_populated_by_handler"},
+		RequireCounters: []string{"delivered_newest_visible", "delivered_older_because_newest_filtered", "recovered_true", "recovered_false", "client_holds_position", "cache_populated_by_handler", "cache_populated_with_several_publications", "publications_landing_inside_a_cache_subscribe", "delivered_newest_visible_with_racing_publications"},
 		Run:             runCase,
 	})
 }
